@@ -1,5 +1,7 @@
 import GoRes.Model.Req
 import GoRes.Lemmas.Req
+import GoRes.Model.Json
+import GoRes.Generated.Facts
 /-! # C07 — everything the service publishes is protocol-conformant
 
 Conformance is stated on the structure of what `process` publishes: every message is built
@@ -175,6 +177,49 @@ theorem counterexample : ¬ ∀ e ∈ process cfgCE reqCE [.tokenEvent none], Co
     simp [process, cfgCE, reqCE, pick, runScript, act, svcEvent, emit]
   have := h _ hm
   simp [Conformant, reqCE, replySubj, evSubj] at this
+
+/-! ## facts regenerated from the source on every run (`Generated/Facts.lean`) -/
+
+/-- a static response: a JSON object with exactly one of `result` / `error`, no other member, an
+error having a non-empty string `code` and a string `message` -/
+def staticOk (payload : Str) : Bool :=
+  match Json.parse payload with
+  | some (.obj ms) =>
+    (match ms with
+     | [(k, v)] =>
+       if k = b!"result" then true
+       else if k = b!"error" then
+         (match v.get? "code", v.get? "message" with
+          | some (.str c), some (.str _) => !c.isEmpty && v.keys.length = 2
+          | _, _ => false)
+       else false
+     | _ => false)
+  | _ => false
+
+/-- **every static response in request.go is protocol-conformant** — re-proved against the byte
+literals extracted from the current source -/
+theorem static_conformant : ∀ r ∈ Generated.staticResponses, staticOk r.2 = true := by
+  decide +kernel
+
+/-- the error codes of errors.go are the ones the model (and the protocol) uses -/
+theorem error_codes_match :
+    Generated.errorCodes.lookup "CodeInternalError" = some codeInternal ∧
+    Generated.errorCodes.lookup "CodeNotFound" = some codeNotFound ∧
+    Generated.errorCodes.lookup "CodeMethodNotFound" = some codeMethodNotFound ∧
+    Generated.errorCodes.lookup "CodeInvalidParams" = some codeInvalidParams ∧
+    Generated.errorCodes.lookup "CodeInvalidQuery" = some codeInvalidQuery ∧
+    Generated.errorCodes.lookup "CodeAccessDenied" = some codeAccessDenied := by
+  decide +kernel
+
+/-- the static responses the model answers with are the source's -/
+theorem static_responses_match :
+    Generated.staticResponses.lookup "responseMissingResponse" = some missingResponse ∧
+    Generated.staticResponses.lookup "responseNotFound" = some (respError codeNotFound b!"Not found" none) ∧
+    Generated.staticResponses.lookup "responseMethodNotFound" = some (respError codeMethodNotFound b!"Method not found" none) ∧
+    Generated.staticResponses.lookup "responseInternalError" = some (respError codeInternal b!"Internal error" none) ∧
+    Generated.staticResponses.lookup "responseSuccess" = some (respResult b!"null" none) := by
+  decide +kernel
+
 
 /-! ## non-vacuity -/
 example : IsResponse false (withMeta [(b!"result", b!"null")] none) := .result _ none (by simp)
